@@ -91,6 +91,17 @@ CLAIMED = {
                 "(bounded stand-in, not counted). Known finding: late bare access statements.",
         "note": "The known finding C04-late-default is a genuine deviation that is recorded, not repaired.",
     },
+    "C15": {
+        "engines": ["A", "Bd"],
+        "technique": "contract-based deductive verification of ford.settings._parse_to_dict (VCs from its AST, z3 strings with uninterpreted strip); statement-order "
+                     "obligations on ford.parse_arguments; the reflection-driven conversion is outside the verifier's reach and covered by a bounded run over the real schema",
+        "text": "Proved: _parse_to_dict yields, for every list of `key SEP value` lines, the table of stripped keys and stripped (for URL tables: unquoted) values split at "
+                "the first separator, and rejects only lines without the separator; parse_arguments applies --config, then explicit options, then path normalisation, then "
+                "the refusal check. Format equivalence for all 85 options is NOT proved: convert_setting / __post_init__ / normalise_paths work by typing reflection; a "
+                "bounded run of the real loaders over the real schema (151 option/value pairs x formats x working directories, precedence and error scenarios) stands in "
+                "and is not counted. Known finding: --config bypasses __post_init__ normalisation for four options.",
+        "note": "Mostly bounded; the proved part is one function and the override order.",
+    },
 }
 _NB = "no obligations built yet for this property in the current commit (planned in DESIGN.md section 6; technique not switched)"
-NOT_APPLICABLE = {p: _NB for p in ["C03", "C09", "C11", "C12", "C13", "C15", "C16", "C17", "C18", "C19", "C20"]}
+NOT_APPLICABLE = {p: _NB for p in ["C03", "C09", "C11", "C12", "C13", "C16", "C17", "C18", "C19", "C20"]}
